@@ -76,6 +76,8 @@ let builder_case ?(timed=false) id ops_s tf_s =
     obs id "CLI" (str_ints io); obs id "CLR" (str_ints ro); obs id "CFI" (str_ints io); obs id "CFR" (str_ints ro);
     obs id "CGI" (str_ints io); obs id "CGR" (str_ints ro); obs id "CEQ" "1";
     obs id "PM1" (str_ints mo); obs id "PM2" (str_ints mo); obs id "PM3" (str_ints mo); obs id "PM4" (str_ints io);
+    (* several iterators of one graph value alive at once: in the model an iteration is a function of the graph *)
+    obs id "NI" (str_ints io); obs id "NR" (str_ints ro); obs id "ZI" (str_ints io); obs id "ZR" (str_ints ro);
     let ks = ints_of ',' tf_s in
     obs id "TF" (try_line mo ks); obs id "TE" (try_line mo ks);
     obs id "P" (Printf.sprintf "%d %d" (int_of_nat pops) (int_of_nat queries));
@@ -113,6 +115,10 @@ let handle line =
   | hd :: rest ->
     let hd_t = List.filter (fun t -> t <> "") (String.split_on_char ' ' hd) in
     (match hd_t, rest with
+     | "CASE" :: _ :: _ :: fam :: _, _ when (String.length fam >= 5 && String.sub fam 0 5 = "tokio")
+                                          || (String.length fam >= 3 && String.sub fam 0 3 = "nm-") ->
+       ()   (* `tokio*`: run inside a real tokio runtime (cooperative budget); `nm-*`: user futures that wake
+               themselves, huge limits, very deep graphs (the model's unary numbers and lists are too slow): monitors only *)
      | "CASE" :: "B" :: id :: fam, [ops; tf] ->
        print_endline line;
        let timed = (match fam with f :: _ -> String.length f >= 5 && String.sub f 0 5 = "timed" | [] -> false) in
@@ -120,10 +126,6 @@ let handle line =
        let tf = match strip_prefix "tf=" tf with Some x -> x | None -> "" in
        builder_case ~timed id ops tf
      | "CASE" :: "BP" :: id :: _, [a; b] -> print_endline line; pair_case id a b
-     | "CASE" :: _ :: _ :: fam :: _, _ when (String.length fam >= 5 && String.sub fam 0 5 = "tokio")
-                                          || (String.length fam >= 3 && String.sub fam 0 3 = "nm-") ->
-       ()   (* `tokio*`: run inside a real tokio runtime (cooperative budget); `nm-*`: user futures that wake
-               themselves (FuturesUnordered's yield rule is not modelled): monitors only, not modelled *)
      | "CASE" :: kind :: id :: _, _ ->
        print_endline line;
        (try Runtime_driver.handle kind id hd_t rest
